@@ -288,7 +288,7 @@ class TCPTransport(Transport):
         :raises TransportNotReadyError if the bind attempt fails
         """
 
-        if self._ready or self._selfIsReadonlyNode or monotonicTime() < self._lastBindAttemptTime + self._syncObj.conf.bindRetryTime:
+        if self._selfIsReadonlyNode or (self._ready and self._server.binded) or monotonicTime() < self._lastBindAttemptTime + self._syncObj.conf.bindRetryTime:
             return
         self._lastBindAttemptTime = monotonicTime()
         try:
